@@ -64,6 +64,8 @@ def _pcase(draw):
     if not c['derived']:
         c['derived'] = ['mu']
     c['part'] = 'pipeline'
+    c['refit'] = False
+    c['condensates'] = draw(st.booleans())
     return c
 
 
@@ -98,6 +100,10 @@ def check_pipeline(case, out):
             if not R.ok or not R.order:
                 out.cls('degenerate-world')
                 return out
+            if case.get('condensates'):
+                # a chemistry that reports a condensate (no bundled chemistry does): its standard deviation is pooled like
+                # every other profile's
+                R.m.chemistry.__class__ = condensate_chemistry()
             cut(out, 'compile_params', R.opt.compile_params)
             with doubles.sampler_doubles(result=c09.deliver(R, tmpdir)):
                 with contextlib.redirect_stdout(io.StringIO()), np.errstate(all='ignore'):
@@ -168,7 +174,10 @@ def check_pipeline(case, out):
             return close(a * a, b * b, rtol=1e-6 if wide else 1e-8, atol=1e-12 * scale * scale)
         with np.errstate(all='ignore'):
             nominal = Rs[0].m.model()
+        if case.get('condensates'):
+            out.cls('condensate-chemistry')
         scales = {'temp_profile_std': float(np.max(Rs[0].m.temperatureProfile)) * 2, 'active_mix_profile_std': 1.0,
+                  'condensate_profile_std': 1e-8,
                   'inactive_mix_profile_std': 1.0, 'native_std': float(np.max(np.abs(nominal[1]))) * 10,
                   'binned_std': float(np.max(np.abs(nominal[1]))) * 10}
         if massless:
@@ -202,6 +211,30 @@ def check_pipeline(case, out):
     finally:
         shutil.rmtree(tmpdir, ignore_errors=True)
     return out
+
+
+_COND = []
+
+
+def condensate_chemistry():
+    if _COND:
+        return _COND[0]
+    from taurex.data.profiles.chemistry import TaurexChemistry
+
+    class CondensateChemistry(TaurexChemistry):
+        @property
+        def condensates(self):
+            return ['Cloudium']
+
+        def initialize_chemistry(self, nlayers=100, temperature_profile=None, pressure_profile=None, altitude_profile=None):
+            self._verif_T = np.array(temperature_profile, dtype=float, copy=True)
+            return super().initialize_chemistry(nlayers, temperature_profile, pressure_profile, altitude_profile)
+
+        @property
+        def condensateMixProfile(self):
+            return (1e-9 * self._verif_T / 1000.0 * (1.0 + 1e3 * np.asarray(self.mixProfile)[-1]))[None, :]
+    _COND.append(CondensateChemistry)
+    return CondensateChemistry
 
 
 def two_pass(xs, ws):
